@@ -27,6 +27,24 @@ def opScan (d : List UInt8) : String :=
   | (c, some f) => s!"{c} OK " ++ frameAttrs f ++ " " ++ hexOrDash f.frameData
   | (c, none) => s!"{c} NONE"
 
+/-- `BIGFRAME total hex` / `BIGSCAN total hex`: the slice is `hex` followed by zero bytes up to `total` bytes
+(gigabytes). `frameNew d` reads `d.length` only to compare it with 6 and with L+6 ≤ 1029, and otherwise
+only `d.take (L+6)`; so it is the same function of `hex ++ zeros` capped at 1100 trailing zeros. `BIGSCAN`
+is issued for slices that start with 0xD3 only: if the candidate at offset 0 is delivered or pending the
+answer is that of the capped slice; if it is rejected the scan runs over zero bytes to the very end. -/
+def bigSlice (total : Nat) (d : List UInt8) : List UInt8 :=
+  d ++ List.replicate (min (total - d.length) 1100) 0
+
+def opBigFrame (total : Nat) (d : List UInt8) : String :=
+  if total < d.length then "BAD-OP" else opFrame (bigSlice total d)
+
+def opBigScan (total : Nat) (d : List UInt8) : String :=
+  if total < d.length then "BAD-OP"
+  else match scan (bigSlice total d) with
+    | (c, some f) => if c = f.frameLen then s!"{c} OK " ++ frameAttrs f ++ " " ++ hexOrDash f.frameData else "BAD-OP"
+    | (0, none) => "0 NONE"
+    | (_, none) => if d.drop 1 |>.all (· != 0xd3) then s!"{total} NONE" else "BAD-OP"
+
 def opIter (d : List UInt8) : String :=
   let r := iterFrames d
   s!"{r.2} {r.1.length}" ++ String.join (r.1.map fun f => " " ++ hexOrDash f.frameData)
@@ -152,6 +170,23 @@ def opBuildSeq (cfg : Cfg) (ws : List String) : String :=
     " ; ".intercalate ((Message.buildSeq cfg Gen.messageTable Gen.sigTable_glo .new ms).map buildResText)
   | none => "BAD-OP"
 
+/-- one builder: `m1` built `n` times, then `m2`; the last result of `m1` and the result of `m2`
+(long sessions: state that only shows after hundreds or tens of thousands of calls) -/
+def buildRep (cfg : Cfg) (m1 : Message.Msg) : Nat → Message.Builder → Res (List Nat) →
+    Message.Builder × Res (List Nat)
+  | 0, b, last => (b, last)
+  | k + 1, b, _ =>
+    let r := b.build cfg Gen.messageTable Gen.sigTable_glo m1
+    buildRep cfg m1 k r.1 r.2
+
+def opBuildRep (cfg : Cfg) (n : Nat) (ws : List String) : String :=
+  match (splitOnSemi ws).mapM parseMsg with
+  | some [m1, m2] =>
+    let r := buildRep cfg m1 n .new (.err .encodingNotSupported)
+    let r2 := r.1.build cfg Gen.messageTable Gen.sigTable_glo m2
+    buildResText r.2 ++ " ; " ++ buildResText r2.2
+  | _ => "BAD-OP"
+
 def parseNatsSp (ws : List String) : Option (List Nat) := ws.mapM String.toNat?
 
 def handleCfg (cfg : Cfg) (toks : List String) : String :=
@@ -159,6 +194,7 @@ def handleCfg (cfg : Cfg) (toks : List String) : String :=
   | ["DEC", h] => match bytesOfHex h with | some d => opDec cfg d | none => "BAD-OP"
   | "ENC" :: ws => opEnc cfg ws
   | "BUILDSEQ" :: ws => opBuildSeq cfg ws
+  | "BUILDREP" :: n :: ws => match n.toNat? with | some n => opBuildRep cfg n ws | none => "BAD-OP"
   | ["SIG", g, b, a] =>
     match Gen.sigTables.find? (·.1 == g), b.toNat?, a.toNat? with
     | some (_, t), some b, some a =>
@@ -226,6 +262,8 @@ def handle (checked : Bool) (line : String) : String :=
   match line.trimAscii.toString.splitOn " " with
   | ["FRAME", h] => match bytesOfHex h with | some d => opFrame d | none => "BAD-OP"
   | ["SCAN", h] => match bytesOfHex h with | some d => opScan d | none => "BAD-OP"
+  | ["BIGFRAME", t, h] => match t.toNat?, bytesOfHex h with | some t, some d => opBigFrame t d | _, _ => "BAD-OP"
+  | ["BIGSCAN", t, h] => match t.toNat?, bytesOfHex h with | some t, some d => opBigScan t d | _, _ => "BAD-OP"
   | ["ITER", h] => match bytesOfHex h with | some d => opIter d | none => "BAD-OP"
   | ["FEED", h] => match parseChunks h with | some cs => opFeed cs | none => "BAD-OP"
   | ["SCHED", h] => match parseSched h with | some ops => opSched ops | none => "BAD-OP"
